@@ -18,7 +18,7 @@ BUILTIN = {0: "ADD", 1: "AVERAGE_POOL_2D", 2: "CONCATENATION", 3: "CONV_2D", 4: 
            43: "SQUEEZE", 45: "STRIDED_SLICE", 49: "SPLIT", 55: "MAXIMUM", 57: "MINIMUM", 65: "SLICE", 67: "TRANSPOSE_CONV",
            70: "EXPAND_DIMS", 97: "RESIZE_NEAREST_NEIGHBOR", 98: "LEAKY_RELU", 101: "ABS", 114: "QUANTIZE", 117: "HARD_SWISH",
            39: "TRANSPOSE", 83: "PACK", 88: "UNPACK", 102: "SPLIT_V", 47: "EXP", 56: "ARG_MAX", 59: "NEG", 76: "RSQRT",
-           75: "SQRT", 73: "LOG", 66: "SIN", 53: "CAST", 42: "DIV", 90: "FLOOR_DIV", 105: "REVERSE_V2", 8: "FLOOR", 108: "COS"}
+           75: "SQRT", 73: "LOG", 99: "SQUARED_DIFFERENCE", 54: "PRELU", 66: "SIN", 53: "CAST", 42: "DIV", 90: "FLOOR_DIV", 105: "REVERSE_V2", 8: "FLOOR", 108: "COS"}
 DT = {"int8": "i8", "uint8": "u8", "int16": "i16", "int32": "i32", "int64": "i64"}
 QRANGE = {"int8": (-128, 127), "uint8": (0, 255), "int16": (-32768, 32767)}
 
@@ -255,6 +255,22 @@ def op_text(model, sg, op, kind):
               1 if opt(op, 0, "b", 0) == 0 else 0, lo, hi, opt(op, 5, "b", 0)]]
     elif kind in ("ADD", "SUB"):
         g = [add_params(kind, T[ins[0]], T[ins[1]], T[outs[0]], opt(op, 0, "b", 0))]
+    elif kind == "SQUARED_DIFFERENCE":
+        s1, _ = one_scale(T[ins[0]], kind)
+        s2, _ = one_scale(T[ins[1]], kind)
+        so, _zo = one_scale(T[outs[0]], kind)
+        dtype = T[outs[0]]["type"]
+        if dtype not in ("int8", "int16") or any(T[i]["type"] != dtype for i in ins[:2]):
+            raise NotSimulated(f"SQUARED_DIFFERENCE:{dtype}")
+        ls = 0 if dtype == "int16" else 7
+        twice_max = np.float64(2.0) * np.float64(max(s1, s2))
+        m1, sh1 = quantize_multiplier(np.float64(s1) / twice_max)
+        m2, sh2 = quantize_multiplier(np.float64(s2) / twice_max)
+        mo, sho = quantize_multiplier(twice_max * twice_max / (np.float64(1 << (ls * 2)) * np.float64(so)))
+        if sh1 > 0 or sh2 > 0 or sho > 0:
+            raise NotSimulated("SQUARED_DIFFERENCE:multiplier_not_smaller_than_one")     # the reference kernel rejects it
+        lo, hi = QRANGE[dtype]
+        g = [[lo, hi, ls, m1, sh1, m2, sh2, mo, sho]]
     elif kind == "MUL":
         s1, _ = one_scale(T[ins[0]], kind)
         s2, _ = one_scale(T[ins[1]], kind)
@@ -263,8 +279,10 @@ def op_text(model, sg, op, kind):
         lo, hi = act_range(opt(op, 0, "b", 0), so, zo, T[outs[0]]["type"])
         g = [[lo, hi, m, s, opt(op, 0, "b", 0)]]
     elif kind in ("MINIMUM", "MAXIMUM"):
-        if not (qparams(T[ins[0]]) == qparams(T[ins[1]]) == qparams(T[outs[0]])):
-            raise NotSimulated(f"{kind}:quantisation_differs")
+        # the reference kernel (maximum_minimum.cc) takes the minimum / maximum of the raw values whatever the
+        # quantisation parameters are (Prepare only compares the types)
+        if len({T[i]["type"] for i in ins[:2] + outs[:1]}) != 1:
+            raise NotSimulated(f"{kind}:types_differ")
     elif kind in ("RELU", "RELU6", "RELU_N1_TO_1"):
         si, _ = one_scale(T[ins[0]], kind)
         so, zo = one_scale(T[outs[0]], kind)
@@ -313,6 +331,112 @@ def op_text(model, sg, op, kind):
     elif kind in ("LOGISTIC", "TANH"):
         one_scale(T[ins[0]], kind)
         one_scale(T[outs[0]], kind)
+    elif kind == "SLICE":
+        bg, sz = (const_ints(model, T[i]) for i in ins[1:3])
+        if bg is None or sz is None:
+            raise NotSimulated("SLICE:dynamic")
+        shape = T[ins[0]]["shape"]
+        g = [list(bg), [d - b0 if s0 == -1 else s0 for b0, s0, d in zip(bg, sz, shape)]]
+        ins = ins[:1]
+    elif kind == "SPLIT_V":
+        sizes, axis_v = const_ints(model, T[ins[1]]), const_ints(model, T[ins[2]])
+        if sizes is None or axis_v is None:
+            raise NotSimulated("SPLIT_V:dynamic")
+        shape = T[ins[0]]["shape"]
+        ax = axis_v[0] + len(shape) if axis_v[0] < 0 else axis_v[0]
+        rest = shape[ax] - sum(s0 for s0 in sizes if s0 >= 0)
+        g = [[ax], [rest if s0 < 0 else s0 for s0 in sizes]]
+        ins = ins[:1]
+    elif kind == "PACK":
+        rank = len(T[outs[0]]["shape"])
+        ax = opt(op, 1, "i", 0)
+        if any(qparams(T[i]) != qparams(T[outs[0]]) for i in ins):
+            raise NotSimulated("PACK:quantisation_differs")
+        g = [[ax + rank if ax < 0 else ax]]
+    elif kind == "UNPACK":
+        rank = len(T[ins[0]]["shape"])
+        ax = opt(op, 1, "i", 0)
+        if any(qparams(T[i]) != qparams(T[ins[0]]) for i in outs):
+            raise NotSimulated("UNPACK:quantisation_differs")
+        g = [[ax + rank if ax < 0 else ax, opt(op, 0, "i", 0)]]
+    elif kind == "PRELU":
+        si, _ = one_scale(T[ins[0]], kind)
+        sa, _ = one_scale(T[ins[1]], kind)
+        so, _ = one_scale(T[outs[0]], kind)
+        if T[ins[0]]["type"] not in ("int8", "uint8") or any(T[i]["type"] != T[ins[0]]["type"] for i in (ins[1], outs[0])):
+            raise NotSimulated(f"PRELU:{T[ins[0]]['type']}")
+        m1, s1 = quantize_multiplier(np.float64(f32(si / so)))
+        m2, s2 = quantize_multiplier(np.float64(f32(f32(si * sa) / so)))
+        g = [[m1, s1, m2, s2]]
+    elif kind == "ABS":
+        si, _ = one_scale(T[ins[0]], kind)
+        so, _ = one_scale(T[outs[0]], kind)
+        if T[ins[0]]["type"] not in ("int8", "int16") or T[outs[0]]["type"] != T[ins[0]]["type"]:
+            raise NotSimulated(f"ABS:{T[ins[0]]['type']}")
+        if si != so:
+            m, sh = quantize_multiplier(np.float64(f32(si / so)))
+            g = [[1, m, sh]]
+        else:
+            g = [[0, 0, 0]]
+    elif kind == "ARG_MAX":
+        axis_v = const_ints(model, T[ins[1]])
+        if axis_v is None:
+            raise NotSimulated("ARG_MAX:dynamic_axis")
+        rank = len(T[ins[0]]["shape"])
+        g = [[axis_v[0] + rank if axis_v[0] < 0 else axis_v[0]]]
+        ins = ins[:1]
+    elif kind == "TRANSPOSE":
+        perm = const_ints(model, T[ins[1]])
+        if perm is None:
+            raise NotSimulated("TRANSPOSE:dynamic_permutation")
+        if qparams(T[ins[0]]) != qparams(T[outs[0]]):
+            raise NotSimulated("TRANSPOSE:quantisation_differs")
+        g = [list(perm)]
+        ins = ins[:1]
+    elif kind == "EXP":
+        one_scale(T[ins[0]], kind)
+        one_scale(T[outs[0]], kind)
+        if T[ins[0]]["type"] not in ("int8", "uint8"):
+            raise NotSimulated(f"EXP:{T[ins[0]]['type']}")
+    elif kind == "HARD_SWISH":
+        x, o = T[ins[0]], T[outs[0]]
+        si, _ = one_scale(x, kind)
+        so, _ = one_scale(o, kind)
+        if x["type"] not in ("int8", "uint8") or o["type"] != x["type"]:
+            raise NotSimulated(f"HARD_SWISH:{x['type']}")
+
+        def down(m32):
+            return 32767 if m32 >= 2147483647 - 32768 else (m32 + 32768) >> 16
+
+        hires = f32(f32(1.0 / 128.0) * si)
+        om, oe = quantize_multiplier(np.float64(f32(hires / so)))
+        rm, re_ = quantize_multiplier(np.float64(f32(hires / f32(3.0 / 32768.0))))
+        if oe > 0:
+            raise NotSimulated("HARD_SWISH:output_multiplier_exponent")          # the reference kernel rejects it
+        g = [[down(om), oe, down(rm), re_]]
+    elif kind == "SOFTMAX":
+        x, o = T[ins[0]], T[outs[0]]
+        si, _ = one_scale(x, kind)
+        so, zo = one_scale(o, kind)
+        if x["type"] not in ("int8", "uint8", "int16") or o["type"] != x["type"]:
+            raise NotSimulated(f"SOFTMAX:{x['type']}_to_{o['type']}")
+        if x["type"] == "int16":
+            if f32bits(so) != 0x38000000 or zo != 0 or qparams(x)[1][0] != 0:
+                raise NotSimulated("SOFTMAX:output_quantisation")
+            beta = f32(opt(op, 0, "f", 0.0))
+            # float product, double quotient (activations.cc SoftmaxPrepare)
+            m, ls = quantize_multiplier(np.float64(f32(si * beta)) / (10.0 / 65535.0))
+            return kind, ins, outs, [[m, ls, 0, f32bits(beta)]]
+        if f32bits(so) != 0x3B800000 or zo != QRANGE[o["type"]][0]:
+            raise NotSimulated("SOFTMAX:output_quantisation")        # the reference kernels reject it
+        beta = f32(opt(op, 0, "f", 0.0))
+        # PreprocessSoftmaxScaling (5 integer bits), CalculateInputRadius: all in double
+        real = min(np.float64(beta) * np.float64(si) * (1 << 26), (1 << 31) - 1.0)
+        m, ls = quantize_multiplier(real)
+        if ls < 0 or m == 0:
+            raise NotSimulated("SOFTMAX:multiplier_below_one")
+        diff_min = -int(math.floor(1.0 * 31 * (1 << 26) / (1 << ls)))
+        g = [[m, ls, diff_min, f32bits(beta)]]
     elif kind in ("RESHAPE", "SQUEEZE", "EXPAND_DIMS"):
         if qparams(T[ins[0]]) != qparams(T[outs[0]]):
             raise NotSimulated(f"{kind}:quantisation_differs")
@@ -321,9 +445,8 @@ def op_text(model, sg, op, kind):
         axis = opt(op, 0, "i", 0)
         if opt(op, 1, "b", 0) != 0:
             raise NotSimulated("CONCATENATION:fused_activation")
-        qo = qparams(T[outs[0]])
-        if any(qparams(T[i]) != qo for i in ins):
-            raise NotSimulated("CONCATENATION:requantising")
+        for i in ins + outs:
+            one_scale(T[i], kind)
         rank = len(T[outs[0]]["shape"])
         g = [[axis + rank if axis < 0 else axis]]
     elif kind == "SPLIT":
@@ -334,14 +457,30 @@ def op_text(model, sg, op, kind):
         g = [[axis_v[0] + rank if axis_v[0] < 0 else axis_v[0], opt(op, 0, "i", 0)]]
     elif kind == "STRIDED_SLICE":
         b, e, st = (const_ints(model, T[i]) for i in ins[1:4])
-        if b is None or e is None or st is None or any(s != 1 for s in st):
-            raise NotSimulated("STRIDED_SLICE:dynamic_or_strided")
-        if any(opt(op, k, "i", 0) != 0 for k in range(5)):
-            raise NotSimulated("STRIDED_SLICE:masks")
+        if b is None or e is None or st is None:
+            raise NotSimulated("STRIDED_SLICE:dynamic")
+        if any(s_ <= 0 for s_ in st):
+            raise NotSimulated("STRIDED_SLICE:non_positive_stride")
+        bm, em, ell, new_ax, shrink = (opt(op, k, "i", 0) for k in range(5))
+        if ell or new_ax or opt(op, 5, "B", 0):
+            raise NotSimulated("STRIDED_SLICE:ellipsis_new_axis_or_offset")
         shape = T[ins[0]]["shape"]
-        b = [x + d if x < 0 else x for x, d in zip(b, shape)]
-        e = [x + d if x < 0 else x for x, d in zip(e, shape)]
-        g = [b, e]
+        if not (len(b) == len(e) == len(st) == len(shape)):
+            raise NotSimulated("STRIDED_SLICE:rank")
+        # strided_slice_logic.h for positive strides: negative indices wrap once, then clamp to [0, dim]; masks select the ends
+        rb, re_ = [], []
+        for i, d in enumerate(shape):
+            bi = b[i] + d if b[i] < 0 else b[i]
+            ei = e[i] + d if e[i] < 0 else e[i]
+            bi = 0 if (bm >> i) & 1 else min(max(bi, 0), d)
+            ei = d if (em >> i) & 1 else min(max(ei, 0), d)
+            if (shrink >> i) & 1:
+                ei = bi + 1
+            if ei <= bi:
+                raise NotSimulated("STRIDED_SLICE:empty")
+            rb.append(bi)
+            re_.append(ei)
+        g = [rb, re_, list(st)]
         ins = ins[:1]
     elif kind == "PAD":
         p = const_ints(model, T[ins[1]])
@@ -523,31 +662,42 @@ def build_request(src_bytes, res, inputs_hex, capture):
 
             progs.append(f"{fbwalk.tensor_bytes(scratch_t)},{fbwalk.tensor_bytes(fast_t)}|{','.join(map(str, words))}|"
                          f"{','.join(place(i) for i in fm_ins)}|{','.join(place(i) for i in fm_outs)}|{','.join(map(str, widx))}")
+    oarena = ""
+    if og.npu_ops and offs is not None and len(offs) >= len(osg["tensors"]):
+        # arena = every tensor that has an offline offset (the scratch tensors of the Ethos-U operators included)
+        size = max([offs[i] + fbwalk.tensor_bytes(t) for i, t in enumerate(osg["tensors"]) if offs[i] >= 0] or [0])
+        oarena = f" oarena={size}:{','.join(str(offs[i]) for i in range(len(osg['tensors'])))}"
     line = (f"semcheck lutbase={lutbase} shram={shram} st={sg.tensors} so={sg.ops} si={','.join(map(str, sg.inputs))} "
             f"sout={','.join(map(str, sg.outputs))} ot={og.tensors} oo={og.ops} oi={','.join(map(str, og.inputs))} "
             f"oout={','.join(map(str, og.outputs))} flash={flash_hex} prog={';'.join(progs)} wt={';'.join(wtab)} "
-            f"data={';'.join('/'.join(s) for s in inputs_hex)}")
+            f"data={';'.join('/'.join(s) for s in inputs_hex)}{oarena}")
     return line, sg, og
 
 
-def make_inputs(rng, src_bytes, k):
-    """k input sets for the graph inputs of a source model: all-min, all-max, zero point, then random
-    (uniform / extremes-heavy)."""
+def input_specs(src_bytes):
+    """(type, element count, zero point) of every graph input of a source model"""
     model = fbwalk.parse(src_bytes)
     sg = model["subgraphs"][0]
+    specs = []
+    for i in sg["inputs"]:
+        t = sg["tensors"][i]
+        if t["type"] not in QRANGE:
+            raise NotSimulated(f"input_type_{t['type']}")
+        n = int(np.prod(t["shape"])) if t["shape"] else 1
+        _sc, zp = qparams(t)
+        specs.append((t["type"], n, zp[0] if zp else 0))
+    return specs
+
+
+def inputs_from_specs(rng, specs, k, first=0):
+    """k input sets: random, all-min, all-max, extremes-heavy, zero point, near zero point, then random again"""
     sets = []
-    for j in range(k):
+    for j in range(first, first + k):
         one = []
-        for i in sg["inputs"]:
-            t = sg["tensors"][i]
-            if t["type"] not in QRANGE:
-                raise NotSimulated(f"input_type_{t['type']}")
-            lo, hi = QRANGE[t["type"]]
-            n = int(np.prod(t["shape"])) if t["shape"] else 1
-            _sc, zp = qparams(t)
-            z = zp[0] if zp else 0
+        for ty, n, z in specs:
+            lo, hi = QRANGE[ty]
             r = np.random.RandomState(rng.getrandbits(32))
-            mode = ["random", "min", "max", "extremes", "zp", "near_zp"][j % 6]
+            mode = ["random", "min", "max", "extremes", "zp", "near_zp"][j % 6] if j < 6 else rng.choice(["random", "random", "extremes", "near_zp", "near_max"])
             if mode == "min":
                 v = np.full(n, lo)
             elif mode == "max":
@@ -558,9 +708,22 @@ def make_inputs(rng, src_bytes, k):
                 v = r.choice([lo, hi, z, lo + 1, hi - 1], n)
             elif mode == "near_zp":
                 v = np.clip(z + r.randint(-6, 7, n), lo, hi)
+            elif mode == "near_max":
+                v = np.clip(hi - r.randint(0, 40, n), lo, hi)
             else:
                 v = r.randint(lo, hi + 1, n)
-            np_t = {"int8": "i1", "uint8": "u1", "int16": "<i2"}[t["type"]]
+            np_t = {"int8": "i1", "uint8": "u1", "int16": "<i2"}[ty]
             one.append(v.astype(np_t).tobytes().hex())
         sets.append(one)
     return sets
+
+
+def make_inputs(rng, src_bytes, k):
+    """k input sets for the graph inputs of a source model"""
+    return inputs_from_specs(rng, input_specs(src_bytes), k)
+
+
+def with_inputs(line, sets):
+    """the request line with another list of input sets"""
+    toks = line.split(" ")
+    return " ".join(("data=" + ";".join("/".join(s) for s in sets)) if t.startswith("data=") else t for t in toks)
